@@ -169,6 +169,30 @@ let handle_bulk (toks : string list) : (string * string * string) option =
          else if p = Z0 then "OK 0"
          else if range_inside sa p num && range_good l src num && Z.leb num tot then "OK " ^ string_of_z p ^ " copied" else "ABORT" in
        Some (ms, ss, "grant:" ^ (if ss = "ABORT" then "refuse" else "ok"))
+     | "ggrant", [src; num; succ; ans; ret] ->
+       (* a back end WITH grant/deny: range check of the source, then the back end is asked, then (declined) the copy path *)
+       let src = zs src and num = zs num and ret = zs ret in
+       let sa = List.hd l in
+       let asked = " asked=1:" ^ string_of_z src ^ ":" ^ string_of_z num in
+       let checked = (check_range guarded l src (w64 num) = Ok ()) in
+       let ms = (match grant_or_copy guarded l sa tot src num (z_of_int 1) (succ = "1") ret with
+           | Ok (true, _) -> "OK " ^ ans ^ asked
+           | Ok (false, []) -> "OK 0" ^ asked
+           | Ok (false, WR (p, _) :: _) -> "OK " ^ string_of_z p ^ " copied" ^ asked
+           | Ok _ -> "?" | Abort -> "ABORT" ^ (if checked then asked else " asked=0") | Fault -> "FAULT" | Diverge -> "DIVERGE") in
+       (* C10: the back end is handed only a buffer that is wholly inside one sandbox or wholly outside all *)
+       let ss = if num = Z0 || range_good l src num then ms else "ABORT asked=0" in
+       Some (ms, ss, "ggrant:" ^ (if succ = "1" then "granted" else "declined") ^ (if ss = "ABORT asked=0" then ":refuse" else ":ok"))
+     | "gdeny", [src; num; succ; ans] ->
+       let src = zs src and num = zs num in
+       let asked = " asked=1:" ^ string_of_z src ^ ":" ^ string_of_z num in
+       let checked = (check_range guarded l src (w64 num) = Ok ()) in
+       let ms = (match deny_or_copy guarded l src num (z_of_int 1) (succ = "1") with
+           | Ok (true, _) -> "OK " ^ ans ^ asked
+           | Ok (false, _) -> "OK copy copied" ^ asked
+           | Abort -> "ABORT" ^ (if checked then asked else " asked=0") | Fault -> "FAULT" | Diverge -> "DIVERGE") in
+       let ss = if num = Z0 || range_good l src num then ms else "ABORT asked=0" in
+       Some (ms, ss, "gdeny:" ^ (if succ = "1" then "denied" else "declined") ^ (if ss = "ABORT asked=0" then ":refuse" else ":ok"))
      | "usp", [p; elk; count] ->
        let p = zs p and count = zs count in
        let elsz = sizeof labi_host (ptee_of_string elk) in
